@@ -11,6 +11,7 @@ CONSTANTS
   Lag = 0
   MaxFaults = 0
   MaxPolls = 1
+  MaxRestarts = 0
   FixH13 = FALSE
   FixRevertVerify = TRUE
   FixUnderflow = TRUE
